@@ -575,3 +575,98 @@ def entity_spec(ctx):
     else:
         ctx.inconclusive.append("vacuity: parser never completed")
     ctx.sample({"paths": E.paths})
+
+
+# ---------------------------------------------------------------------------------------
+# O2f: the "Return Value" heading of every page that documents a function shows the whole declaration of the result: type, attributes AND
+# the shape written after the result's name — on procedure pages and on the pages of interface bodies and abstract interfaces alike
+# ---------------------------------------------------------------------------------------
+RV_DECLS = [("real, allocatable :: r(:, :)", ["real", "allocatable", "(:,:)"]), ("real, dimension(3) :: r", ["real", "dimension(3)"]),
+            ("character(len=5) :: r(2)", ["character", "len=5", "(2)"]), ("integer, pointer :: r(:)", ["integer", "pointer", "(:)"]),
+            ("type(shape_t) :: r(4)", ["shape_t", "(4)"])]
+RV_HOSTS = ["module function", "interface body", "abstract interface"]
+
+
+def _rv_files(decl, host):
+    fn = ["function make_it(n) result(r)", "  !! makes it", "  integer, intent(in) :: n", "  " + decl, "end function make_it"]
+    src = ["module things", "  !! things", "  type shape_t", "    integer :: c", "  end type shape_t"]
+    if host == "module function":
+        src += ["contains"] + fn
+    elif host == "interface body":
+        src += ["  interface"] + ["  import :: shape_t" if x.startswith("  integer, intent") and "shape_t" in decl else None for x in []] + fn + ["  end interface"]
+    else:
+        src += ["  abstract interface"] + fn + ["  end interface"]
+    src += ["end module things"]
+    if host != "module function" and "shape_t" in decl:
+        i = src.index("  integer, intent(in) :: n")
+        src.insert(i, "  import :: shape_t")
+    return {"things.f90": "\n".join(src) + "\n"}
+
+
+def replay_return_value(w):
+    import os
+    import re as _re
+    import shutil
+    from fv import fordrun
+    d, outdir, rc, log = fordrun.run_ford(_rv_files(w["decl"], w["host"]), {"search": "false", "graph": "false", "display": "public\n         private"})
+    try:
+        if rc != 0:
+            return True, {"declaration": w["decl"], "host": w["host"], "ford failed": log[-300:]}
+        found = []
+        for root, _, fs in os.walk(outdir):
+            for fn in fs:
+                if not fn.endswith(".html"):
+                    continue
+                text = open(os.path.join(root, fn), encoding="utf-8", errors="replace").read()
+                for m in _re.finditer(r"<h3>\s*Return Value.*?<small>(.*?)</small>", text, _re.S):
+                    shown = _re.sub(r"\s+", "", _re.sub(r"<[^>]*>", "", m.group(1))).lower()
+                    found.append((os.path.relpath(os.path.join(root, fn), outdir), shown))
+    finally:
+        shutil.rmtree(d, ignore_errors=True)
+    missing = [(pg, shown, [p_ for p_ in w["parts"] if p_.lower() not in shown]) for pg, shown in found]
+    missing = [x for x in missing if x[2]]
+    return (not found) or bool(missing), {"declaration of the result": w["decl"], "function is a": w["host"], "Return Value headings": found,
+                                           "parts of the declaration not shown": missing}
+
+
+@obligation("C18", "O2f.return-value-heading-on-every-page", engine="SX(CV)", timeout=900)
+def return_value_heading(ctx):
+    """a function (module function, interface body or abstract interface: symbolic) whose result is declared in a symbolic form (shape after
+    the name, dimension attribute, character length, derived type): every generated page with a "Return Value" heading shows the type,
+    every attribute and the shape"""
+    import glob
+    import os
+    import ford.output as out
+
+    tdir = os.path.join(os.path.dirname(out.__file__), "templates")
+    for t in sorted(glob.glob(os.path.join(tdir, "*.html"))):
+        src = open(t).read()
+        if "Return Value" in src:
+            ctx.encode_text("templates/" + os.path.basename(t), src, "jinja-template")
+    ctx.bounds.update({"result declarations": [d[0] for d in RV_DECLS], "hosts": RV_HOSTS})
+    ctx.stubs.append("one real `python -m ford` run per (declaration, host): the templates are rendered by the real code")
+
+    def h(E):
+        di = CV.choice(E, "decl", list(range(len(RV_DECLS)))).concretize()
+        host = CV.choice(E, "host", RV_HOSTS).concretize()
+        snap = {"decl": RV_DECLS[di][0], "parts": RV_DECLS[di][1], "host": host}
+        E.e.snapshot = lambda m: dict(snap)
+        from fv import patch as _p
+        with _p.suspended():
+            bad, detail = replay_return_value(snap)
+        E.reachable("rendered")
+        E.require(not bad, "a page's Return Value heading does not show the whole declaration of the result")
+
+    E = sym.Engine(ctx, max_paths=200, incremental=True)
+    found = E.explore(h)
+    seen = set()
+    for (label, m, pc), snap in zip(found, E.snapshots):
+        if not snap or (snap["decl"], snap["host"]) in seen:
+            continue
+        seen.add((snap["decl"], snap["host"]))
+        ctx.report(label, snap, replay_return_value)
+    if E.reached.get("rendered"):
+        ctx.twins += 1
+    else:
+        ctx.inconclusive.append("vacuity: nothing rendered")
+    ctx.sample({"paths": E.paths})
